@@ -150,6 +150,18 @@ func (x *Exec) invoke(fr *Frame, st *State, recv *Value, m *types.Func, args []*
 		}
 	}
 	r := x.invoke0(fr, st, recv, m, args, resT, pos)
+	if x.afterNames != nil {
+		for _, k := range []string{shortType(recv.T) + "." + m.Name(), m.Name()} {
+			if x.afterNames[k] {
+				snap := st.clone()
+				snap.snaps = nil
+				if st.snaps == nil {
+					st.snaps = map[string]*State{}
+				}
+				st.snaps[k] = snap
+			}
+		}
+	}
 	if r != nil && x.retCells != nil {
 		for _, k := range []string{shortType(recv.T) + "." + m.Name(), m.Name()} {
 			if c, ok := x.retCells[k]; ok {
@@ -419,7 +431,8 @@ func (x *Exec) applyContract(fr *Frame, st *State, c *Contract, fn *ssa.Function
 	if len(c.Callbacks) > 0 {
 		x.invokeCallbacks(st, c, fn, args)
 	}
-	if c.AssignsAll {
+	if c.AssignsAll || (!c.HasAssigns && !c.Pure) {
+		// no frame clause: the callee may write anything
 		x.havocAll(st)
 	} else {
 		for _, a := range c.Assigns {
@@ -508,7 +521,11 @@ func (x *Exec) havocLvalue(env *SpecEnv, st *State, e *Expr) {
 			nv = Store(arr, loc.ref, x.ctx.Fresh("hv_"+shortKey(loc.key), loc.sort.Val))
 		}
 		st.heap[loc.key] = nv
-		x.noteWrite(loc.key, nil)
+		if loc.whole {
+			x.noteWrite(loc.key, nil)
+		} else {
+			x.noteWrite(loc.key, loc.ref) // only this object's row changes: lets loops frame the rest
+		}
 	}
 }
 
